@@ -508,6 +508,40 @@ def large_networks(M, rec):
                 pass
 
 
+def homonymous_elements(M, rec):
+    """Scripted in every run: *different* elements carrying one user-chosen name (the two carriageways of a motorway both called
+    "A13", a ramp named after its link, every element called "x") - condition 1 speaks of an element placed twice, not of names;
+    the same layouts with one object really placed twice. The in-situ monitor decides against the nine conditions."""
+    lk = lambda nm: M.Link(2, 2, 1.0, 180.0, 33.5, 102.0, 1.867, name=nm)  # noqa: E731
+    for names, fault in (
+        (("A13", "A13", "O", "D", "R"), None),
+        (("A13", "A13", "A13", "A13", "A13"), None),
+        (("L1", "L2", "L1", "L2", "L1"), None),
+        (("L1", "L2", "same", "same", "same"), None),
+        (("A13", "A13", "O", "D", "R"), "ramp"),
+        (("L1", "L2", "O", "D", "R"), "link"),
+    ):
+        for node_names in ((None, None, None, None), ("N", "N", "N", "N")):
+            nodes = [M.Node(name=nn) if nn else M.Node() for nn in node_names]
+            l1, l2 = lk(names[0]), lk(names[1])
+            ramp = M.MeteredOnRamp(1500.0, name=names[4])
+            net = M.Network().add_path((nodes[0], l1, nodes[1], l2, nodes[2]), origin=M.MainstreamOrigin(name=names[2]),
+                                       destination=M.Destination(name=names[3]))
+            net.add_origin(ramp, nodes[1])
+            if fault == "ramp":
+                net.add_link(nodes[3], lk(names[0]), nodes[1]).add_origin(ramp, nodes[3])
+            elif fault == "link":
+                net.add_link(nodes[3], l1, nodes[1]).add_origin(M.Origin(name=names[2]), nodes[3])
+            else:
+                net.add_link(nodes[3], lk(names[0]), nodes[1]).add_origin(M.Origin(name=names[2]), nodes[3])
+            rec.count("networks_of_homonymous_elements")
+            for r in (False, True):
+                try:
+                    net.is_valid(raises=r)
+                except Exception:
+                    pass
+
+
 def run(M, rec, tier, seed, k, n):
     rng = random.Random(seed * 1000 + k + 600)
     mon = ValidMonitor(M, rec).install()
@@ -515,6 +549,7 @@ def run(M, rec, tier, seed, k, n):
         scripted_user_kinds(M, rec)
         large_networks(M, rec)
         index_hashed_kinds(M, rec)
+        homonymous_elements(M, rec)
         if tier == "quick":
             exhaustive(M, rec, rng, 2, 0, 1)
             shared_objects(M, rec, rng, 150)
